@@ -26,6 +26,21 @@ def source_docs(tier, rng):
             if t not in seen:
                 seen.add(t)
                 out.append((lbl, t))
+    # the same documents written differently: comments, processing instructions, CDATA, a declaration,
+    # entity references - nothing of this may make one source kind differ from another
+    def textual(t, k):
+        i = t.index('>') + 1                                  # just inside the root
+        j = t.rindex('</')                                    # just before the root's end tag
+        forms = [t[:i] + '<!-- a comment -->' + t[i:], t[:j] + '<!-- trailing comment -->' + t[j:],
+                 t[:i] + '<?proc instr?>' + t[i:], '<?xml version="1.0" encoding="UTF-8"?>\n' + t + '\n',
+                 '<!-- before the root -->' + t, t.replace('<roID>', '<roID><!-- inside an ID -->', 1),
+                 t.replace('</roID>', '<![CDATA[]]></roID>', 1), t.replace('<roID>', '<roID>&#82;', 1)]
+        return forms[k % len(forms)], ['comment inside root', 'comment at the end', 'processing instruction', 'declaration',
+                                       'comment before root', 'comment inside roID', 'empty CDATA in roID', 'character reference in roID'][k % len(forms)]
+    for k, (lbl, t) in enumerate(list(out)):
+        for kk in (k, k + 3):
+            tt, what = textual(t, kk)
+            out.append((f'{lbl} [{what}]', tt))
     g = gen_hist.Gen(rng)
     out.append(('attribute values with quotes', TJ.to_text(B.story_append([B.story('Q', [B.item('Q1', extra=[E('x', text='t', attrs={'note': 'the "late" edition', 'a': "it's", 'nl': 'a\nb', 'amp': 'a&b<c>'})])])], message_id='77'))))
     for k in range(20 if tier == 'quick' else 200):
@@ -105,7 +120,8 @@ def listing_cases(tier):
     the listing is empty (how S3 answers)."""
     keysets = [[], ['a/1.mos.xml'], ['a/1.mos.xml', 'a/2.txt'], ['a/x.mos.xml', 'a/y.mos.xml', 'a/z.json'],
                ['a/only.txt'], ['a/deep/3.mos.xml', 'a/.mos.xml', 'a/4.mos.xmlx'],
-               ['a/UPPER.MOS.XML', 'a/lower.mos.xml', 'a/Mixed.Mos.Xml', 'a/note.TXT']]
+               ['a/UPPER.MOS.XML', 'a/lower.mos.xml', 'a/Mixed.Mos.Xml', 'a/note.TXT'],
+               ['a/near-mos.xml', 'a/near.mos_xml', 'a/near.mosaxml', 'a/nearxmos.xml', 'a/real.mos.xml', 'a/x.mos.xml.bak', 'a/y.txt+']]
     out = []
     maxp = 3 if tier == 'quick' else 4
     for npages in range(0, maxp + 1):
@@ -119,6 +135,9 @@ def listing_cases(tier):
             for prefix in prefixes:
                 for suffix in ('.mos.xml', '.txt', ''):
                     out.append((pages, prefix, suffix))
+                if any('near' in k for pg in pages for k in pg):
+                    for suffix in ('.txt+', 'mos.xml', '.mos.xml.bak', '(.mos.xml)', '[x]ml', '.*'):     # the suffix is a literal string, not a pattern
+                        out.append((pages, prefix, suffix))
                 if any('UPPER' in k for pg in pages for k in pg):
                     for suffix in ('.MOS.XML', '.Mos.Xml', '.TXT'):      # the suffix test is case-sensitive on both sides
                         out.append((pages, prefix, suffix))
@@ -283,6 +302,14 @@ def file_pool(rng):
         pool[f'm{k:02d}_{cls}.mos.xml'] = ('xml', TJ.to_text(msg))
     pool['compact_roReplace.mos.xml'] = ('xml', TJ.to_text(B.ro_replace([B.story('X', [B.item('X1')])], message_id='90')))
     pool['delete.mos.xml'] = ('xml', TJ.to_text(B.ro_delete(message_id='99')))
+    # messages with empty fields, no IDs, no payload: inspect must get through every classifiable one
+    pool['mdr_empty_fields.mos.xml'] = ('xml', TJ.to_text(B.metadata_replace([E('roSlug'), E('roChannel'), E('roEdStart', text=' ')], message_id='91')))
+    pool['append_nothing.mos.xml'] = ('xml', TJ.to_text(B.story_append([], message_id='92')))
+    pool['insert_idless.mos.xml'] = ('xml', TJ.to_text(B.story_insert(B.BLANK, [B.story(B.ABSENT, [], slug=False), B.story(B.BLANK, [E('item')])], message_id='93')))
+    pool['send_bare.mos.xml'] = ('xml', TJ.to_text(B.story_send(B.BLANK, [], slug=False, message_id='94')))
+    pool['itemreplace_blank.mos.xml'] = ('xml', TJ.to_text(B.item_replace(B.BLANK, B.BLANK, [E('item', E('itemID'))], message_id='95')))
+    pool['ea_move_notarget.mos.xml'] = ('xml', TJ.to_text(B.ea('MOVE', B.ABSENT, [B.ids('storyID', [B.BLANK])], message_id='96')))
+    pool['ea_swap_blank.mos.xml'] = ('xml', TJ.to_text(B.ea('SWAP', {'storyID': B.BLANK}, [B.ids('itemID', [B.BLANK, B.BLANK])], message_id='97')))
     pool['notxml.txt'] = ('notxml', 'this is not xml <')
     pool['empty.xml'] = ('notxml', '')
     pool['unknown.xml'] = ('xml', '<mos><mosID>x</mosID><somethingElse/></mos>')
